@@ -197,6 +197,9 @@ def gen_history(rng, idx, base, opts):
                         cand = [s for s in sources if s not in t["deps"]]
                         if cand:
                             t["deps"] = t["deps"] + [rng.choice(cand)]
+                    # pytask collects dependencies given by defaults before those given by node annotations:
+                    # hashed inputs (200-299) stay behind the files, as in the order of the graph's edges
+                    t["deps"] = [d for d in t["deps"] if not 200 <= d < 300] + [d for d in t["deps"] if 200 <= d < 300]
                     tasks = tasks[:i] + [t] + tasks[i + 1:]
                 else:
                     # remove the last task if nothing depends on it
